@@ -65,7 +65,7 @@ macro_rules! c10_max {
         #[kani::proof]
         #[kani::unwind(14)]
         #[kani::stub(alloc::fmt::format, fmt_stub)]
-        #[kani::stub(<[u64]>::sort_unstable, sort_noop)]
+        #[kani::stub(core::slice::sort::unstable::sort, sort_inner_small)]
         #[kani::stub(a5::core::serialization::get_resolution, res_stub)]
         pub fn $name() {
             max_body::<$n>($lo, $hi);
@@ -75,6 +75,96 @@ macro_rules! c10_max {
 c10_max!(c10_max_4, 4, 0, 29);
 c10_max!(c10_max_5, 5, 0, 29);
 c10_max!(c10_max_5_hi, 5, 2, 29);
+
+/// Low-resolution family: every non-overlapping set of N cells of resolution ≤ 1 (base cells and
+/// quintants of any faces — where numeric ID order does *not* follow the hierarchy): the output is
+/// maximal (no complete quintant group of any face, symbolic parent) and numerically sorted.
+fn lowres_body<const N: usize>() {
+    warm();
+    assume_unique_mode();
+    let input = any_sorted_cells::<N>(0, 1);
+    assume_antichain::<N>(&input);
+    let out = match a5::compact(&input) {
+        Ok(v) => v,
+        Err(_) => {
+            assert!(false);
+            return;
+        }
+    };
+    let p: u64 = kani::any();
+    kani::assume(spec_valid(p));
+    let rp = res_stub(p);
+    kani::assume(rp <= 0);
+    let mut cnt = 0usize;
+    let mut i = 0;
+    while i < N {
+        if i < out.len() && res_stub(out[i]) == rp + 1 && spec_covers(p, out[i]) {
+            cnt += 1;
+        }
+        i += 1;
+    }
+    assert!(cnt < fanout(rp));
+    let a: usize = kani::any();
+    kani::assume(a + 1 < out.len());
+    assert!(out[a] < out[a + 1]);
+    // coverage is preserved as well
+    let y: u64 = kani::any();
+    kani::assume(spec_valid(y) && res_stub(y) == 1);
+    assert!(covered_by::<N>(&input, y) == covered_by::<N>(&out, y));
+    kani::cover!(out.len() == 2 && N == 6);
+    kani::cover!(out.len() == N);
+    core::mem::forget(out);
+}
+
+#[kani::proof]
+#[kani::unwind(14)]
+#[kani::stub(alloc::fmt::format, fmt_stub)]
+#[kani::stub(core::slice::sort::unstable::sort, sort_inner_small)]
+#[kani::stub(a5::core::serialization::get_resolution, res_stub)]
+pub fn c10_lowres_6() {
+    lowres_body::<6>();
+}
+
+/// The interleaving class in two symbols: ∀ faces f ≠ g: compact({five quintants of f, base cell of
+/// g}) = {base f, base g} in numeric order. The six IDs are built bit-level from the documented
+/// layout and handed over unsorted (compact's own sort runs through the bounded sort stub).
+#[kani::proof]
+#[kani::unwind(14)]
+#[kani::stub(alloc::fmt::format, fmt_stub)]
+#[kani::stub(core::slice::sort::unstable::sort, sort_inner_small)]
+#[kani::stub(a5::core::serialization::get_resolution, res_stub)]
+pub fn c10_lowres_fg() {
+    warm();
+    assume_unique_mode();
+    let f: u64 = kani::any();
+    let g: u64 = kani::any();
+    kani::assume(f < 12 && g < 12 && f != g);
+    let base_f = (f << 58) | (1u64 << 57);
+    let base_g = (g << 58) | (1u64 << 57);
+    let mut arr = [0u64; 6];
+    let mut n = 0;
+    while n < 5 {
+        arr[n] = ((5 * f + n as u64) << 58) | (1u64 << 56);
+        n += 1;
+    }
+    arr[5] = base_g;
+    let out = match a5::compact(&arr) {
+        Ok(v) => v,
+        Err(_) => {
+            assert!(false);
+            return;
+        }
+    };
+    assert!(out.len() == 2, "five quintants of one face plus a base cell of another face must merge");
+    if base_f < base_g {
+        assert!(out[0] == base_f && out[1] == base_g);
+    } else {
+        assert!(out[0] == base_g && out[1] == base_f);
+    }
+    kani::cover!(g == 6 && f == 1);
+    kani::cover!(g < f);
+    core::mem::forget(out);
+}
 
 /// Idempotence: compact(compact(x)) = compact(x) as vectors (the second call sees whatever order
 /// the first produced; its own sort is the identity stub, so an out-of-order first result shows).
@@ -115,7 +205,7 @@ macro_rules! c10_idem {
         #[kani::proof]
         #[kani::unwind(14)]
         #[kani::stub(alloc::fmt::format, fmt_stub)]
-        #[kani::stub(<[u64]>::sort_unstable, sort_noop)]
+        #[kani::stub(core::slice::sort::unstable::sort, sort_inner_small)]
         #[kani::stub(a5::core::serialization::get_resolution, res_stub)]
         pub fn $name() {
             idem_body::<$n>($lo, $hi);
@@ -186,7 +276,7 @@ fn split_body<const N: usize, const K: usize>() {
 #[kani::proof]
 #[kani::unwind(14)]
 #[kani::stub(alloc::fmt::format, fmt_stub)]
-#[kani::stub(<[u64]>::sort_unstable, sort_noop)]
+#[kani::stub(core::slice::sort::unstable::sort, sort_inner_small)]
 #[kani::stub(a5::core::serialization::get_resolution, res_stub)]
 pub fn c10_split_1() {
     split_body::<1, 4>();
@@ -195,7 +285,7 @@ pub fn c10_split_1() {
 #[kani::proof]
 #[kani::unwind(14)]
 #[kani::stub(alloc::fmt::format, fmt_stub)]
-#[kani::stub(<[u64]>::sort_unstable, sort_noop)]
+#[kani::stub(core::slice::sort::unstable::sort, sort_inner_small)]
 #[kani::stub(a5::core::serialization::get_resolution, res_stub)]
 pub fn c10_split_2() {
     split_body::<2, 5>();
